@@ -91,13 +91,13 @@ theorem offset_negative_stale :
   decide
 
 /-- **pnq_inv** holds initially … -/
-theorem pnq_inv_init (n : Nat) : Inv (new n) := new_inv n
+theorem pnq_inv_init {α : Type} [Inhabited α] (n : Nat) : Inv (new n : PNQ α) := new_inv n
 
 /-- … and is preserved by Emplace / GetEntry / Remove / RemoveUpTo (packet numbers ≥ −1, i.e.
     any QUIC packet number or the invalid marker; gaps of any size), none of which panics.
     `Inv`: ring well-formed; `numberOfPresentEntries` = number of present wrappers; non-empty ⇒
     front wrapper present and `firstPacket ≥ 0`; empty ⇒ `firstPacket = invalidPacketNumber`. -/
-theorem pnq_inv (q : PNQ) (h : Inv q) (op : Op) (hw : op.wellFormed) :
+theorem pnq_inv {α : Type} [Inhabited α] (q : PNQ α) (h : Inv q) (op : Op α) (hw : op.wellFormed) :
     ∃ q' r, q.step op = Res.ok (q', r) ∧ Inv q' := by
   cases op with
   | emplace pn v =>
@@ -114,20 +114,20 @@ theorem pnq_inv (q : PNQ) (h : Inv q) (op : Op) (hw : op.wellFormed) :
     exact ⟨q', .unit, by simp [PNQ.step, h1], h2⟩
 
 /-- `Op.wellFormed` is met by every QUIC packet number and by the invalid marker −1 -/
-example : (Op.emplace 0 (some 7)).wellFormed ∧ (Op.emplace (-1) none).wellFormed ∧ (Op.removeUpTo (-5)).wellFormed := by
+example : (Op.emplace 0 (some 7) : Op Nat).wellFormed ∧ (Op.emplace (-1) none : Op Nat).wellFormed ∧ (Op.removeUpTo (-5) : Op Nat).wellFormed := by
   simp [Op.wellFormed]
 
 /-- **pnq_no_panic**: from `newPacketNumberIndexedQueue(n)` (any initial capacity), every
     sequence of operations with arbitrary packet numbers ≥ −1 (in any order, with gaps,
     duplicates, numbers restarting from 0 as the three QUIC number spaces do) runs to the end
     without reaching a ring panic, an index fault or the end of a loop's fuel. -/
-theorem pnq_no_panic (n : Nat) (ops : List Op) (hw : ∀ op ∈ ops, op.wellFormed) :
-    ∃ q', (new n).run ops = Res.ok q' ∧ Inv q' := by
+theorem pnq_no_panic {α : Type} [Inhabited α] (n : Nat) (ops : List (Op α)) (hw : ∀ op ∈ ops, op.wellFormed) :
+    ∃ q', (new n : PNQ α).run ops = Res.ok q' ∧ Inv q' := by
   obtain ⟨q', _, _, h2, h3⟩ := runG_spec ops (new n) (-1) (new_ginv n) hw
   exact ⟨q', h3, h2.1⟩
 
 /-- the hypotheses are met by a run with a gap, a number-space restart and pruning -/
-example : (new 2).run [.emplace 0 (some 10), .emplace 1 (some 11), .emplace 5 (some 15), .emplace 0 (some 99),
+example : (new 2 : PNQ Nat).run [.emplace 0 (some 10), .emplace 1 (some 11), .emplace 5 (some 15), .emplace 0 (some 99),
       .remove 0, .getEntry 5, .removeUpTo 4, .removeUpTo 9] =
     Res.ok { entries := { ring := List.replicate 8 ⟨false, 0⟩, head := 6, tail := 6, full := false },
              present := 0, first := -1 } := by decide
@@ -136,8 +136,8 @@ example : (new 2).run [.emplace 0 (some 10), .emplace 1 (some 11), .emplace 5 (s
     use is at most `last − k + 1` (0 if that is negative), where `last` is the last packet
     number `Emplace` accepted.  With the sender's `leastUnacked` as `k`, the bookkeeping is
     bounded by the packet-number span still outstanding. -/
-theorem slots_bound (n : Nat) (ops : List Op) (hw : ∀ op ∈ ops, op.wellFormed) (k : Int) :
-    ∃ q last q', runG (new n, -1) ops = Res.ok (q, last) ∧ q.removeUpTo k = Res.ok q' ∧
+theorem slots_bound {α : Type} [Inhabited α] (n : Nat) (ops : List (Op α)) (hw : ∀ op ∈ ops, op.wellFormed) (k : Int) :
+    ∃ q last q', runG ((new n : PNQ α), -1) ops = Res.ok (q, last) ∧ q.removeUpTo k = Res.ok q' ∧
       (q'.slotsUsed : Int) ≤ max 0 (last - k + 1) := by
   obtain ⟨q, last, h1, h2, _⟩ := runG_spec ops (new n) (-1) (new_ginv n) hw
   obtain ⟨q', h3, _, h4⟩ := removeUpTo_bound h2 k
@@ -145,8 +145,8 @@ theorem slots_bound (n : Nat) (ops : List Op) (hw : ∀ op ∈ ops, op.wellForme
 
 /-- between prunings the slots in use never exceed the span first..last of accepted numbers:
     `slotsUsed = LastPacket − FirstPacket + 1` whenever the queue is non-empty -/
-theorem slots_span (n : Nat) (ops : List Op) (hw : ∀ op ∈ ops, op.wellFormed) :
-    ∃ q last, runG (new n, -1) ops = Res.ok (q, last) ∧
+theorem slots_span {α : Type} [Inhabited α] (n : Nat) (ops : List (Op α)) (hw : ∀ op ∈ ops, op.wellFormed) :
+    ∃ q last, runG ((new n : PNQ α), -1) ops = Res.ok (q, last) ∧
       (q.slotsUsed = 0 ∨ ((q.slotsUsed : Int) = last - q.first + 1 ∧ 0 ≤ q.first)) := by
   obtain ⟨q, last, h1, h2, _⟩ := runG_spec ops (new n) (-1) (new_ginv n) hw
   refine ⟨q, last, h1, ?_⟩
